@@ -247,9 +247,14 @@ fn run_family(cx: &mut Ctx, fx: &Fix, fam: &'static str, key: &str, cfgs: &[Vec<
 				},
 				Ok(Err((oracle, detail))) => {
 					let m = minimise(fx, fam, c, oracle);
+					let mut st2 = Stats::default();
+					let dmin = match par::guarded(|| run_case(fx, fam, &m, &mut st2)) {
+						Ok(Err((o, d))) if o == oracle => d,
+						_ => detail.clone(),
+					};
 					viols.push((base_order + i as u64, Viol {
 						oracle,
-						identity: crate::rt_identity(oracle, fam, &detail, &desc(fam, &m)),
+						identity: crate::rt_identity(oracle, fam, &dmin, &desc(fam, &m)),
 						detail: format!("[{} {}] {}", fam, desc(fam, c), detail),
 						replay: json!({"fam": format!("b12-{}", fam), "cfg": m}),
 						rank: 0,
@@ -306,7 +311,12 @@ pub fn run(cx: &mut Ctx) {
 	let thorough = cx.tier.is_thorough();
 
 	// ---- offers: full product -------------------------------------------------------------
-	let offers = product(&sizes("offer"), &[]);
+	// sub-second durations (offer / refund expiry index 4, created_at index 3) are probed by a few
+	// dedicated configurations; the products use whole seconds so that one lossy field does not end
+	// the checks of a whole slice early
+	let mut offers = product(&sizes("offer"), &[(5, vec![0, 1, 2, 3])]);
+	offers.push(vec![0, 0, 0, 0, 0, 4, 0, 0]);
+	offers.push(vec![3, 1, 2, 2, 3, 4, 2, 1]);
 	let offer_bytes = run_family(cx, fx, "offer", "offer", &offers, 1 << 32);
 
 	// ---- invoice requests -----------------------------------------------------------------
@@ -333,23 +343,31 @@ pub fn run(cx: &mut Ctx) {
 				for q in [0u8, 2] {
 					let oc = vec![km, paths, amt, q, 0, 1, 2, 1];
 					let rc = vec![0, if amt == 0 { 1 } else { 0 }, if q == 0 { 0 } else { 2 }, 1, 0];
-					for ic in product(&b12::INV_FACTOR_SIZES, &[]) {
+					for ic in product(&b12::INV_FACTOR_SIZES, &[(4, vec![0, 1, 2])]) {
 						inv_cfgs.push([oc.clone(), rc.clone(), ic].concat());
 					}
 				}
 			}
 		}
 	}
+	inv_cfgs.push(vec![0, 0, 2, 0, 0, 0, 0, 0, 0, 0, 0, 0, 0, 0, 0, 0, 0, 3]);
+	inv_cfgs.push(vec![3, 2, 0, 2, 0, 1, 2, 1, 0, 1, 2, 1, 0, 1, 2, 4, 1, 3]);
 	let inv_bytes = run_family(cx, fx, "invoice", "invoice", &inv_cfgs, 3 << 32);
 
 	// ---- refunds ---------------------------------------------------------------------------
-	let refunds = product(&sizes("refund"), &[]);
+	let mut refunds = product(&sizes("refund"), &[(5, vec![0, 1, 2, 3])]);
+	refunds.push(vec![0, 0, 0, 0, 0, 4, 0, 0]);
+	refunds.push(vec![2, 2, 3, 2, 3, 4, 1, 1]);
 	let refund_bytes = run_family(cx, fx, "refund", "refund", &refunds, 4 << 32);
 	// invoice options at positions 8.. : paths, relative expiry, fallbacks, mpp, created_at
-	let ic_small: Vec<(usize, Vec<u8>)> = if thorough { vec![] } else { vec![(9, vec![0, 3]), (10, vec![0, 4]), (12, vec![0, 2, 3])] };
+	let ic_small: Vec<(usize, Vec<u8>)> =
+		if thorough { vec![(12, vec![0, 1, 2])] } else { vec![(9, vec![0, 3]), (10, vec![0, 4]), (12, vec![0, 2])] };
 	let mut r = vec![(2, vec![0, 1, 3]), (3, vec![0, 2]), (4, if thorough { vec![0, 3] } else { vec![0] }), (5, if thorough { vec![0, 1] } else { vec![0] }), (6, vec![1]), (7, vec![0])];
 	r.extend(ic_small.clone());
 	let rinv_cfgs = product(&sizes("refund-invoice"), &r);
+	let mut rinv_cfgs = rinv_cfgs;
+	rinv_cfgs.push(vec![2, 0, 0, 0, 0, 0, 1, 0, 0, 0, 0, 0, 3, 0]);
+	rinv_cfgs.push(vec![2, 2, 0, 0, 0, 0, 1, 0, 1, 2, 4, 1, 3, 1]);
 	let rinv_bytes = run_family(cx, fx, "refund-invoice", "refund_invoice", &rinv_cfgs, 5 << 32);
 
 	// ---- static invoices --------------------------------------------------------------------
@@ -365,6 +383,8 @@ pub fn run(cx: &mut Ctx) {
 	];
 	r.extend(ic_small.clone());
 	let st_cfgs = product(&sizes("static"), &r);
+	let mut st_cfgs = st_cfgs;
+	st_cfgs.push(vec![3, 1, 0, 0, 0, 0, 0, 0, 0, 0, 0, 0, 3, 1]);
 	let st_bytes = run_family(cx, fx, "static", "static", &st_cfgs, 6 << 32);
 
 	// ---- single-bit flips --------------------------------------------------------------------
